@@ -34,11 +34,11 @@ class Graph:
         return sum(len(v) for v in self.out.values())
 
 
-def gen_graph(name, wb, pool, src, workers=1, timeout=1200, extra_cfg=''):
+def gen_graph(name, wb, pool, src, workers=1, timeout=1200, extra_cfg='', lists=(), settable=None):
     d = tlc.new_scratch('eng')
     mod = f'MC_{name}_{src}'
     with open(os.path.join(d, mod + '.tla'), 'w') as f:
-        f.write(W.tla_constants(wb, pool, src, mod))
+        f.write(W.tla_constants(wb, pool, src, mod, lists=lists, settable=settable))
     with open(os.path.join(d, 'gen.cfg'), 'w') as f:
         f.write(W.ENGINE_CFG + 'INVARIANT PrintInit\nACTION_CONSTRAINT PrintEdge\n'
                 + extra_cfg)
@@ -154,11 +154,48 @@ class RealModel:
                     edges=[list(e) for e in edges],
                     changed=bool(getattr(m, '_values_changed', False)))
 
-    def do(self, act):
-        """perform one model action; returns ('ok', value) or ('exc', name)"""
+    def do(self, act, variant='str'):
+        """perform one model action; returns ('ok', value) or ('exc', name)
+
+        variant: how the address of an evaluate is spelled (C05 access paths)
+        """
+        from pycel.excelutil import AddressRange
         try:
             if act['op'] == 'evaluate':
-                return 'ok', self.m.evaluate(W.addr(act['n']))
+                a = W.addr(act['n'])
+                if variant == 'str':
+                    return 'ok', self.m.evaluate(a)
+                if variant == 'object':
+                    return 'ok', self.m.evaluate(AddressRange(a))
+                if variant == 'nosheet':
+                    return 'ok', self.m.evaluate(act['n'])
+                if variant == 'nosheet_object':
+                    return 'ok', self.m.evaluate(AddressRange(act['n']))
+                if variant == 'list1':
+                    r = self.m.evaluate([a])
+                    assert isinstance(r, list) and len(r) == 1, r
+                    return 'ok', r[0]
+                if variant == 'tuple1':
+                    r = self.m.evaluate((a,))
+                    assert isinstance(r, tuple) and len(r) == 1, r
+                    return 'ok', r[0]
+                if variant == 'gen1':
+                    r = self.m.evaluate(x for x in [a])
+                    assert isinstance(r, tuple) and len(r) == 1, r
+                    return 'ok', r[0]
+                raise ValueError(variant)
+            if act['op'] == 'evaluate_list':
+                addrs = [W.addr(n) for n in act['ns']]
+                if variant in ('str', 'list1'):
+                    return 'ok', list(self.m.evaluate(addrs))
+                if variant == 'tuple1':
+                    return 'ok', list(self.m.evaluate(tuple(addrs)))
+                if variant == 'gen1':
+                    return 'ok', list(self.m.evaluate(a for a in addrs))
+                if variant in ('object', 'nosheet', 'nosheet_object'):
+                    return 'ok', list(self.m.evaluate(
+                        [AddressRange(n) for n in act['ns']]))
+                raise ValueError(variant)
             if act['op'] == 'set_value':
                 self.m.set_value(W.addr(act['n']), W.py_val(act['v']))
                 return 'ok', None
